@@ -2,9 +2,10 @@ package rules
 
 import (
 	"fmt"
-	"os"
+	"go/constant"
 	"go/token"
 	"go/types"
+	"os"
 	"reflect"
 	"sort"
 	"strings"
@@ -2685,5 +2686,256 @@ func rulePerPageDecision(c *eng.Ctx) {
 		// the renderer may be a function value chosen before the loop from the options alone: nothing carried
 		// between pages can then influence it; no claim is made about other shapes
 		c.Ok(R, name+"#render", fn.Pos(), "not evaluated: no direct per-page rendering call in the page loop")
+	}
+}
+
+// R11.9 [C11]
+func rulePageOwnGeometry(c *eng.Ctx) {
+	const R = "R11.9-PAGE-OWN-GEOMETRY"
+	c.Rule(R, "every page handed to header/footer detection carries its own index, fragments and page size: each field of the layout.PageFragments built in detectHeaderFooter is computed from the element of the page list the same loop trip is looking at, not from one fixed page (pages of one document differ in size, and the band positions are measured from the page height)", 4, 0)
+	name := "tabula.(*Extractor).detectHeaderFooter"
+	root := c.P.Func(name)
+	if root == nil {
+		c.Undec(R, name, token.NoPos, "anchor not found")
+		return
+	}
+	n := 0
+	for _, fn := range eng.Cluster(root, 1) {
+		if fn.Pkg != root.Pkg {
+			continue
+		}
+		eng.Instrs(fn, false, func(in ssa.Instruction) {
+			st, ok := in.(*ssa.Store)
+			if !ok {
+				return
+			}
+			fr, ok := eng.AsField(st.Addr)
+			if !ok || !strings.HasSuffix(fr.Struct, "layout.PageFragments") {
+				return
+			}
+			n++
+			own, fixed := false, false
+			for w := range eng.SliceInter(st.Val, func(*ssa.Call) bool { return true }, []*ssa.Function{root, fn}) {
+				ia, ok := w.(*ssa.IndexAddr)
+				if !ok {
+					continue
+				}
+				if _, isInd := eng.Induction(ia.Index); isInd {
+					own = true
+				}
+				if _, isC := eng.ConstInt(ia.Index); isC {
+					if sl, ok := ia.X.Type().Underlying().(*types.Slice); ok && strings.Contains(sl.Elem().String(), "extractedPage") {
+						fixed = true
+					}
+				}
+			}
+			c.Check(own && !fixed, R, fmt.Sprintf("%s#%s", eng.FuncName(fn), fr.Field), st.Pos(), "from the page of this loop trip",
+				"the "+fr.Field+" given to detection is not computed from the page the loop trip is looking at (a value looked up once for one fixed page): pages of other sizes get the wrong band positions and their headers and footers stay")
+		})
+	}
+	if n == 0 {
+		c.Undec(R, name+"#fields", root.Pos(), "no layout.PageFragments is filled")
+	}
+}
+
+// R2.14 [C02, C04, C03]
+func ruleMarkUnmarkBalance(c *eng.Ctx) {
+	const R = "R2.14-MARK-UNMARK-BALANCE"
+	c.Rule(R, "an in-progress mark (a key put into a map of the receiver that the same function also deletes: the path of the current resolution) is taken back on every path from the mark to a return, explicitly or by a deferred function: a mark left behind by an error return makes the next, unrelated lookup of that object report a cycle", 2, 0)
+	mapRoot := func(v ssa.Value) string {
+		if fr, ok := eng.LoadOfField(v); ok {
+			return fr.Struct + "." + fr.Field
+		}
+		if p, ok := v.(*ssa.Parameter); ok {
+			return "param:" + p.Name()
+		}
+		return ""
+	}
+	deletesOf := func(f *ssa.Function, root string) []ssa.Instruction {
+		var out []ssa.Instruction
+		eng.Instrs(f, false, func(in ssa.Instruction) {
+			if ci, ok := in.(ssa.CallInstruction); ok {
+				if b, ok := ci.Common().Value.(*ssa.Builtin); ok && b.Name() == "delete" && mapRootThrough(ci.Common().Args[0], mapRoot) == root {
+					out = append(out, in)
+				}
+			}
+		})
+		return out
+	}
+	for _, fn := range c.P.ModuleFuncs() {
+		if fn.Blocks == nil || fn.Parent() != nil || fn.Signature.Recv() == nil {
+			continue
+		}
+		// marks: m[k] = true on a map of the receiver
+		var marks []*ssa.MapUpdate
+		eng.Instrs(fn, false, func(in ssa.Instruction) {
+			if mu, ok := in.(*ssa.MapUpdate); ok {
+				if k, isC := mu.Value.(*ssa.Const); isC && k.Value != nil && k.Value.Kind() == constant.Bool && constant.BoolVal(k.Value) {
+					if r := mapRoot(mu.Map); r != "" && !strings.HasPrefix(r, "param:") {
+						marks = append(marks, mu)
+					}
+				}
+			}
+		})
+		for i, mu := range marks {
+			root := mapRoot(mu.Map)
+			direct := deletesOf(fn, root)
+			deferred := false
+			eng.Instrs(fn, false, func(in ssa.Instruction) {
+				if d, ok := in.(*ssa.Defer); ok {
+					if g := eng.StaticCallee(d); g != nil && len(deletesOf(g, root)) > 0 {
+						deferred = true
+					}
+				}
+			})
+			if len(direct) == 0 && !deferred {
+				continue // a visited set that only grows: not an in-progress mark
+			}
+			key := fmt.Sprintf("%s#mark%d", eng.FuncName(fn), i+1)
+			// every path from the mark to a return passes a delete, or a deferring of one
+			isUnmark := func(in ssa.Instruction) bool {
+				for _, d := range direct {
+					if d == in {
+						return true
+					}
+				}
+				if d, ok := in.(*ssa.Defer); ok {
+					if g := eng.StaticCallee(d); g != nil && len(deletesOf(g, root)) > 0 {
+						return true
+					}
+				}
+				return false
+			}
+			leak := token.NoPos
+			seen := map[*ssa.BasicBlock]bool{}
+			var walk func(b *ssa.BasicBlock, start int)
+			walk = func(b *ssa.BasicBlock, start int) {
+				if leak != token.NoPos {
+					return
+				}
+				for k := start; k < len(b.Instrs); k++ {
+					in := b.Instrs[k]
+					if isUnmark(in) {
+						return
+					}
+					if r, ok := in.(*ssa.Return); ok {
+						leak = r.Pos()
+						return
+					}
+				}
+				for _, s := range b.Succs {
+					if !seen[s] {
+						seen[s] = true
+						walk(s, 0)
+					}
+				}
+			}
+			idx := 0
+			for k, in := range mu.Block().Instrs {
+				if in == ssa.Instruction(mu) {
+					idx = k + 1
+				}
+			}
+			walk(mu.Block(), idx)
+			c.Check(leak == token.NoPos, R, key, mu.Pos(), "the mark is taken back on every path to a return",
+				"the in-progress mark set here is still in the map at the return at "+c.P.Pos(leak)+": after a failed lookup the object stays marked and the next lookup of it reports a cycle")
+		}
+	}
+}
+
+func mapRootThrough(v ssa.Value, mapRoot func(ssa.Value) string) string {
+	if r := mapRoot(v); r != "" {
+		return r
+	}
+	// inside a deferred closure the receiver is a captured variable
+	if ld, ok := v.(*ssa.UnOp); ok && ld.Op == token.MUL {
+		if fa, ok := ld.X.(*ssa.FieldAddr); ok {
+			if fr, ok := eng.AsField(fa); ok {
+				return fr.Struct + "." + fr.Field
+			}
+		}
+	}
+	return ""
+}
+
+// R3.9 [C03, C14]
+func ruleReadOnlyExports(c *eng.Ctx) {
+	const R = "R3.9-EXPORT-READS-ONLY"
+	c.Rule(R, "rendering, exporting, filtering and searching a chunk collection do not write into its chunks: no function of package rag named To…, Export…, Filter…, Search…, Get…, Find… stores into a field of a Chunk or ChunkMetadata it did not create itself (a 'temporary' that is a copy of the pointer is the collection's own chunk), so a second export of the same collection gives the same records", 20, 1)
+	readOnly := func(name string) bool {
+		for _, p := range []string{"To", "Export", "Filter", "Search", "Get", "Find", "Count", "Stat"} {
+			if strings.HasPrefix(name, p) {
+				return true
+			}
+		}
+		return false
+	}
+	isChunkish := func(t types.Type) bool {
+		n := eng.TypeName(t)
+		return strings.HasSuffix(n, "rag.Chunk") || strings.HasSuffix(n, "rag.ChunkMetadata") || strings.HasSuffix(n, ".exportedChunk")
+	}
+	var created func(v ssa.Value, depth int) bool
+	created = func(v ssa.Value, depth int) bool {
+		if depth > 8 {
+			return false
+		}
+		switch x := v.(type) {
+		case *ssa.Alloc:
+			return true
+		case *ssa.FieldAddr:
+			return created(x.X, depth+1)
+		case *ssa.IndexAddr:
+			return created(x.X, depth+1)
+		case *ssa.MakeSlice:
+			return true
+		case *ssa.Phi:
+			for _, e := range x.Edges {
+				if !created(e, depth+1) {
+					return false
+				}
+			}
+			return true
+		}
+		return false
+	}
+	for _, fn := range c.P.ModuleFuncs() {
+		if fn.Pkg == nil || fn.Parent() != nil {
+			continue
+		}
+		sp := eng.ShortPath(fn.Pkg.Pkg.Path())
+		if sp != "rag" && !strings.Contains(fn.Pkg.Pkg.Path(), eng.PositivePkg) {
+			continue
+		}
+		if !readOnly(fn.Name()) {
+			continue
+		}
+		bad := token.NoPos
+		what := ""
+		eng.Instrs(fn, true, func(in ssa.Instruction) {
+			st, ok := in.(*ssa.Store)
+			if !ok {
+				return
+			}
+			fa, ok := st.Addr.(*ssa.FieldAddr)
+			if !ok {
+				return
+			}
+			pt, ok := fa.X.Type().Underlying().(*types.Pointer)
+			if !ok || !isChunkish(pt.Elem()) {
+				return
+			}
+			if created(fa.X, 0) {
+				return
+			}
+			bad = st.Pos()
+			if fr, ok := eng.AsField(fa); ok {
+				what = fr.Field
+			}
+		})
+		if bad != token.NoPos {
+			c.Viol(R, eng.FuncName(fn), bad, "a read-only operation stores into field "+what+" of a chunk it did not create: the collection is changed by being rendered, and a later export of it differs from an earlier one")
+		} else {
+			c.Ok(R, eng.FuncName(fn), fn.Pos(), "no store into chunks of the collection")
+		}
 	}
 }
